@@ -438,36 +438,43 @@ _RUN_WIDE_TALLIES = ("reverse_complemented", "with_adapters", "written", "writte
 
 
 def r6_per_adapter_values(repo, report):
-    """Inside the loops that describe ONE adapter (text report, JSON report) a printed tally must come from that
-    adapter's statistics object.  The run-wide object may only be asked whether a feature is on (... is not None /
-    truthiness) and for the number of reads (denominator of a fraction)."""
+    """Inside the code that describes ONE adapter (the per-adapter loops of the text and JSON reports, and
+    Statistics._adapter_statistics_as_json) a printed tally must come from that adapter's statistics object.  The
+    run-wide object may only be asked whether a feature is on, and that question is 'is (not) None': a truth test
+    would take a tally of 0 for 'feature off' (--revcomp used, nothing reverse-complemented)."""
     n = 0
-    for owner, fname in ((None, "full_report"), ("Statistics", "_adapter_statistics_as_json"), ("Statistics", "as_json")):
+    scopes = []
+    for owner, fname in ((None, "full_report"), ("Statistics", "as_json")):
         fn = repo.func("report", fname) if owner is None else repo.method(owner, fname)[1]
         if fn is None:
             continue
         run = "self" if owner else params(fn)[0]
         for lp in [x for x in ast.walk(fn) if isinstance(x, (ast.For, ast.ListComp, ast.GeneratorExp))]:
-            if isinstance(lp, ast.For):
-                it, body = lp.iter, lp.body
-            else:
-                it, body = lp.generators[0].iter, [lp.elt]
-            if "adapter_stats" not in src(it):
-                continue
-            n += 1
-            bad = []
-            for st in body:
-                for x in ast.walk(st):
-                    if isinstance(x, ast.Attribute) and isinstance(x.value, ast.Name) and x.value.id == run and x.attr in _RUN_WIDE_TALLIES and isinstance(x.ctx, ast.Load):
-                        par = getattr(x, "_parent", None)
-                        is_none_test = isinstance(par, ast.Compare) and len(par.ops) == 1 and isinstance(par.ops[0], (ast.Is, ast.IsNot)) and isinstance(par.comparators[0], ast.Constant) and par.comparators[0].value is None
-                        is_truth_test = isinstance(par, (ast.If, ast.IfExp, ast.While)) and par.test is x or (isinstance(par, ast.UnaryOp) and isinstance(par.op, ast.Not)) or (isinstance(par, ast.BoolOp))
-                        if not (is_none_test or is_truth_test):
-                            bad.append(f"{run}.{x.attr} at line {x.lineno}")
-            report.ob("C20.R6", f"{fname}: values shown for one adapter come from that adapter's statistics", not bad, facts={"loop_over": src(it)[:60], "run_wide_values_used": bad[:3]}, loc=repo.loc(lp),
-                      expected=f"inside the per-adapter loop, {run}.<run-wide tally> appears only in 'is (not) None' / truth tests",
-                      why=(f"{bad[0]} is the tally over all adapters, shown as if it were this adapter's" if bad else ""))
-    report.floor("C20.R6", "per-adapter loops in the reports", n, 2)
+            it, body = (lp.iter, lp.body) if isinstance(lp, ast.For) else (lp.generators[0].iter, [lp.elt])
+            if "adapter_stats" in src(it):
+                scopes.append((fname, run, body, lp, src(it)[:60]))
+    c, fj = repo.method("Statistics", "_adapter_statistics_as_json")
+    if fj is not None:
+        scopes.append(("_adapter_statistics_as_json", "self", fj.body, fj, "(whole function: one adapter's statistics)"))
+    for fname, run, body, anchor, what in scopes:
+        n += 1
+        bad, weak = [], []
+        for st in body:
+            for x in ast.walk(st):
+                if isinstance(x, ast.Attribute) and isinstance(x.value, ast.Name) and x.value.id == run and x.attr in _RUN_WIDE_TALLIES and isinstance(x.ctx, ast.Load):
+                    par = getattr(x, "_parent", None)
+                    is_none_test = isinstance(par, ast.Compare) and len(par.ops) == 1 and isinstance(par.ops[0], (ast.Is, ast.IsNot)) and isinstance(par.comparators[0], ast.Constant) and par.comparators[0].value is None
+                    is_truth_test = (isinstance(par, (ast.If, ast.IfExp, ast.While)) and par.test is x) or (isinstance(par, ast.UnaryOp) and isinstance(par.op, ast.Not)) or isinstance(par, ast.BoolOp)
+                    if is_none_test:
+                        continue
+                    (weak if is_truth_test else bad).append(f"{run}.{x.attr} at line {x.lineno}")
+        report.ob("C20.R6", f"{fname}: values shown for one adapter come from that adapter's statistics", not bad, facts={"scope": what, "run_wide_values_used": bad[:3]}, loc=repo.loc(anchor),
+                  expected=f"in per-adapter code, {run}.<run-wide tally> appears only in 'is (not) None' tests",
+                  why=(f"{bad[0]} is the tally over all adapters, shown as if it were this adapter's" if bad else ""))
+        report.ob("C20.R6", f"{fname}: 'feature on' is asked with 'is not None'", not weak, facts={"truth_tests": weak[:3]}, loc=repo.loc(anchor),
+                  expected="an optional run-wide tally is tested with 'is (not) None'",
+                  why=(f"{weak[0]} is tested for truth: when the option was used but the tally is 0 the adapter's own count is reported as absent (null) instead of 0" if weak else ""))
+    report.floor("C20.R6", "per-adapter scopes in the reports", n, 3)
 
 
 def r1_fresh_match_list(repo, report):
